@@ -120,7 +120,12 @@ pub fn jobs_for(prop: &str) -> Vec<Job> {
         "C04" => crash_all(),
         "C19" => vec![Job { name: "compat-corpus".into(), kind: JobKind::Compat, quick: 240, thorough: 4000 }],
         "C12" => seq_all(Focus::Urgency, 1),
-        "C06" => seq_all(Focus::Payloads, 1),
+        "C06" => {
+            // uploads split into chunks, also while other uploads interleave on the same worker
+            let mut v = seq_all(Focus::Payloads, 1);
+            v.extend(conc_all().into_iter().filter(|j| j.name.contains("http")));
+            v
+        }
         "C14" => {
             let mut v = seq_http(Focus::General, 1);
             v.push(twin(TwinMode::HttpLib, 3000, 150_000));
